@@ -34,6 +34,15 @@ var purityTrees = map[string]map[string]string{
 	"strdefC": {"main.tsh": "func pad(n int) []string {\n\tvar r []string\n\tr[n] = itoa(n)\n\treturn r\n}\nt := pad(3)\nprint(len(t))\n"},
 	"nlA":     {"main.tsh": "s := \"a\\nb\"\nprint(s, len(s))\n"},
 	"nlB":     {"main.tsh": "var b []bool\nb[1] = true\nvar n []int\nn[2] = 5\nprint(len(b), len(n), b[0], n[1])\n"},
+	// two DIFFERENT paths with IDENTICAL bytes (a copied module), directly and behind two other imports: whatever tells the copies apart must not depend on where the tree lives
+	"copies": {"main.tsh": "import (\n\ta \"one/unit.tsh\"\n\tb \"two/unit.tsh\"\n)\n\nprint(a.Next(), b.Next(), a.Next())\n",
+		"one/unit.tsh": "count := 0\nfunc Next() int {\n\tcount++\n\treturn count\n}\nprint(\"unit ready\")\n",
+		"two/unit.tsh": "count := 0\nfunc Next() int {\n\tcount++\n\treturn count\n}\nprint(\"unit ready\")\n"},
+	"copies2": {"main.tsh": "import (\n\tl \"left.tsh\"\n\tr \"right.tsh\"\n)\n\nprint(l.L(), r.R(), l.L())\n",
+		"left.tsh":        "import u \"x/unit.tsh\"\n\nfunc L() string {\n\treturn \"l\" + itoa(u.Next())\n}\n",
+		"right.tsh":       "import u \"y/z/unit.tsh\"\n\nfunc R() string {\n\treturn \"r\" + itoa(u.Next())\n}\n",
+		"x/unit.tsh":   "var count int = 10\nfunc Next() int {\n\tcount += 2\n\treturn count\n}\n",
+		"y/z/unit.tsh": "var count int = 10\nfunc Next() int {\n\tcount += 2\n\treturn count\n}\n"},
 	"plain": {"main.tsh": "a := 3\nfor i := 0; i < a; i++ {\n\tif i == 1 {\n\t\tcontinue\n\t}\n\tprint(i)\n}\ns := []int{1, 2}\ns[3] = 4\nprint(len(s), \"x\"[0:1])\n"},
 	"dirA": {"main.tsh": "import u \"util.tsh\"\n\nprint(u.Label(1), u.Twice(2))\n",
 		"util.tsh": "func Label(n int) string {\n\treturn \"item-\" + itoa(n)\n}\nfunc Twice(n int) int {\n\treturn n * 2\n}\nfunc Unused() int {\n\treturn 0\n}\n"},
